@@ -161,6 +161,26 @@ func tableKey(tab []gts.Feature, strict []bool) string {
 	return encList(out)
 }
 
+// safeExpectedRead: expectedRead (props_c06_canon.go) for hand-built locations on which the
+// constructors panic (an empty Joined / Ordered)
+func safeExpectedRead(l gts.Location) (out gts.Location, ok bool) {
+	defer func() {
+		if recover() != nil {
+			ok = false
+		}
+	}()
+	return expectedRead(l), true
+}
+
+func allCanonical(tab []gts.Feature) bool {
+	for _, f := range tab {
+		if f.Loc == nil || !isCanonical(f.Loc) {
+			return false
+		}
+	}
+	return true
+}
+
 func canonicalLocs(tab []gts.Feature) []bool {
 	out := make([]bool, len(tab))
 	for i, f := range tab {
@@ -385,6 +405,38 @@ func (c c01case) compare(r *Run, rline string, got seqio.GenBank, text string, q
 			attribute(Failure{Oracle: "read(write r) has the feature table of r", Op: rline, Got: gt, Want: wt}, nil)
 		} else {
 			attribute(Failure{Oracle: "read(write r) has the feature table of r", Op: rline, Got: gt, Want: wt}, nil)
+		}
+	}
+	// locations, exactly: a canonical location (C06: Gts.Loc.canonP) is read back as itself
+	// (Gts.C06.parse_print); any other as the location the smart constructors Join / Order /
+	// Complement() make of its parts once more (Gts.C06.written_join_read_back) — that is the one
+	// place where gts reads back something else than it wrote (the edited locations that leave the
+	// canonical domain: Gts.C01.writable_record_delete_full_refuted, root cause K3 of C06)
+	for i, f := range want.Table {
+		if i >= len(got.Table) || f.Loc == nil {
+			break
+		}
+		if strict[i] {
+			r.count("location/" + c.name + "/canonical(read back as written)")
+			if !locEq(got.Table[i].Loc, f.Loc) {
+				attribute(Failure{Oracle: "a canonical location is read back as it was written", Op: rline,
+					Got: encLoc(got.Table[i].Loc), Want: encLoc(f.Loc)}, nil)
+			}
+			continue
+		}
+		exp, ok := safeExpectedRead(f.Loc)
+		if !ok {
+			r.count("location/" + c.name + "/non-canonical(constructors panic)")
+			continue
+		}
+		if locEq(exp, f.Loc) {
+			r.count("location/" + c.name + "/non-canonical(coordinates only)")
+		} else {
+			r.count("location/" + c.name + "/non-canonical(read back re-reduced)")
+		}
+		if !locEq(got.Table[i].Loc, exp) {
+			attribute(Failure{Oracle: "a written location is read back as Join / Order / Complement of its parts", Op: rline,
+				Got: encLoc(got.Table[i].Loc), Want: encLoc(exp)}, nil)
 		}
 	}
 	// fields
@@ -919,6 +971,122 @@ func corpusRecords(r *Run) []seqio.GenBank {
 	return out
 }
 
+// lastGuestCanonical: the guest editStep drew has a table of canonical locations (it matters for
+// insert / embed / concat only)
+var lastGuestCanonical bool
+var lastGuest gts.Sequence
+
+func tableAll(seq gts.Sequence, f func(gts.Location) bool) bool {
+	for _, ft := range seq.Features() {
+		if ft.Loc == nil || !f(ft.Loc) {
+			return false
+		}
+	}
+	return true
+}
+
+// closureOracle: the record-level closure theorems (Gts.C01.writable_record_insert_partial /
+// _delete_partial / _reverse_partial / _rotate_partial) as an oracle on one pipeline step whose
+// table(s) were canonical: under the coordinate guards of the theorem the edited table is
+// canonical — for insert always, for delete / reverse / rotate unless the K3 guard (restated in
+// props_c06_canon.go, tied to Gts/Spec/CanonGuard.lean by the k3.* lines of C06) is raised.
+func closureOracle(r *Run, opName, d string, before, after gts.Sequence) {
+	L := gts.Len(before)
+	within := func(s gts.Sequence) bool {
+		n := gts.Len(s)
+		return tableAll(s, func(l gts.Location) bool { return coordsWithin(l, n) })
+	}
+	stays := tableAll(after, canonP)
+	opLine := ""
+	report := func(guarded bool, theorem string) {
+		switch {
+		case stays:
+			r.count("pipeline/closure/" + opName + "/guards hold, table stays canonical")
+		case guarded:
+			r.count("pipeline/closure/" + opName + "/K3 guard raised, table leaves the canonical domain")
+		default:
+			r.fail(Failure{Oracle: "closure of the round-trip domain under " + opName + " (" + theorem + ")",
+				Op: opLine, Got: encSeq(after), Want: "a table of canonical locations"})
+		}
+	}
+	switch opName {
+	case "insert":
+		var i int
+		fmt.Sscanf(d, "insert@%d", &i)
+		opLine = fmt.Sprintf("seq.insert %s %d %s", encSeq(before), i, encSeq(lastGuest))
+		if !tableAll(before, canonP) || !tableAll(lastGuest, canonP) || !within(before) || !within(lastGuest) || !tableAll(lastGuest, wellFormed) {
+			r.count("pipeline/closure/insert/outside the guards")
+			return
+		}
+		report(false, "Gts.C01.writable_record_insert_partial")
+	case "embed":
+		var i int
+		fmt.Sscanf(d, "embed@%d", &i)
+		opLine = fmt.Sprintf("seq.embed %s %d %s", encSeq(before), i, encSeq(lastGuest))
+		if !tableAll(before, canonP) || !tableAll(lastGuest, canonP) || !within(before) || !within(lastGuest) ||
+			!tableAll(before, wellFormed) || !tableAll(lastGuest, wellFormed) {
+			r.count("pipeline/closure/embed/outside the guards")
+			return
+		}
+		report(false, "Gts.C01.writable_record_embed_partial")
+	case "concat":
+		opLine = fmt.Sprintf("seq.concat %s %s", encSeq(before), encSeq(lastGuest))
+		if !tableAll(before, canonP) || !tableAll(lastGuest, canonP) || !within(lastGuest) || !tableAll(lastGuest, wellFormed) {
+			r.count("pipeline/closure/concat/outside the guards")
+			return
+		}
+		report(false, "Gts.C01.writable_record_concat_partial")
+	case "erase":
+		var i, k int
+		fmt.Sscanf(d, "erase@%d+%d", &i, &k)
+		opLine = fmt.Sprintf("seq.erase %s %d %d", encSeq(before), i, k)
+		if !tableAll(before, canonP) {
+			r.count("pipeline/closure/erase/outside the guards")
+			return
+		}
+		// the guard over ALL features (the theorem asks it of the features Erase keeps only)
+		g := !tableAll(before, func(l gts.Location) bool {
+			return !opK3(l, func(u gts.Location) gts.Location { return u.Expand(i, -k) }, false)
+		})
+		report(g, "Gts.C01.writable_record_erase_partial")
+	case "delete":
+		var i, k int
+		fmt.Sscanf(d, "delete@%d+%d", &i, &k)
+		opLine = fmt.Sprintf("seq.delete %s %d %d", encSeq(before), i, k)
+		if !tableAll(before, canonP) {
+			r.count("pipeline/closure/delete/outside the guards")
+			return
+		}
+		g := !tableAll(before, func(l gts.Location) bool {
+			return !opK3(l, func(u gts.Location) gts.Location { return u.Expand(i, -k) }, false)
+		})
+		report(g, "Gts.C01.writable_record_delete_partial")
+	case "reverse":
+		opLine = "seq.reverse " + encSeq(before)
+		if !tableAll(before, canonP) || !tableAll(before, func(l gts.Location) bool { return revIn(l, L) }) {
+			r.count("pipeline/closure/reverse/outside the guards")
+			return
+		}
+		g := !tableAll(before, func(l gts.Location) bool {
+			return !opK3(l, func(u gts.Location) gts.Location { return u.Reverse(L) }, true)
+		})
+		report(g, "Gts.C01.writable_record_reverse_partial")
+	case "rotate":
+		var k int
+		fmt.Sscanf(d, "rotate%d", &k)
+		opLine = fmt.Sprintf("seq.rotate %s %d", encSeq(before), k)
+		if L == 0 || !tableAll(before, canonP) || !within(before) || !tableAll(before, wellFormed) {
+			r.count("pipeline/closure/rotate/outside the guards")
+			return
+		}
+		n := ((k % L) + L) % L
+		g := !tableAll(before, func(l gts.Location) bool {
+			return !opK3(l.Expand(0, n), func(u gts.Location) gts.Location { return u.Normalize(L) }, false)
+		})
+		report(g, "Gts.C01.writable_record_rotate_partial")
+	}
+}
+
 // one step of an edit pipeline; ok=false when the operation's own precondition
 // fails (panics are other properties' business)
 func editStep(r *rng, seq gts.Sequence, pool []gts.Sequence) (out gts.Sequence, desc string, ok bool) {
@@ -929,6 +1097,8 @@ func editStep(r *rng, seq gts.Sequence, pool []gts.Sequence) (out gts.Sequence, 
 	}()
 	n := gts.Len(seq)
 	guest := pool[r.intn(len(pool))]
+	lastGuestCanonical = allCanonical(guest.Features())
+	lastGuest = guest
 	switch r.intn(9) {
 	case 0:
 		i := r.intn(n + 1)
@@ -1312,6 +1482,20 @@ func propC01(r *Run) {
 			if gts.Len(next) > 12000 {
 				break
 			}
+			// the reach of the closure theorems (Gts.C01.writable_record_*_partial): does the step
+			// keep a table of canonical locations canonical?
+			opName := strings.TrimRight(strings.SplitN(d, "@", 2)[0], "-0123456789")
+			usesGuest := opName == "insert" || opName == "embed" || opName == "concat"
+			if allCanonical(seq.Features()) && (!usesGuest || lastGuestCanonical) {
+				if allCanonical(next.Features()) {
+					r.count("pipeline/step/" + opName + "/canonical table stays canonical")
+				} else {
+					r.count("pipeline/step/" + opName + "/canonical table LEAVES the canonical domain")
+				}
+			} else {
+				r.count("pipeline/step/" + opName + "/table was not canonical")
+			}
+			closureOracle(r, opName, d, seq, next)
 			seq = next
 			desc = append(desc, strings.SplitN(d, "@", 2)[0])
 		}
@@ -1339,6 +1523,22 @@ func propC01(r *Run) {
 	c01SliceCases(r, slicePool, nSlice)
 	c01RefInfoBoundary(r)
 	c01SliceRenumber(r)
+	// --- the edited record that leaves the canonical domain (Gts.C01.writable_record_delete_full_refuted,
+	// root cause K3 of C06): `gts delete 4..6` on a record with the feature join(7,4..5,7..9) writes
+	// join(4,4..6), which is read back as 4..6.  The exact oracle of compare() (a written location is
+	// read back as Join of its parts) holds; the histogram shows the case on every run.
+	{
+		tab := gts.FeatureSlice{
+			gts.Feature{Key: "source", Loc: gts.Range(0, 12), Props: gts.Props{}},
+			gts.Feature{Key: "misc_feature", Loc: gts.Joined{gts.Point(6), gts.Range(3, 5), gts.Range(6, 9)}, Props: gts.Props{}},
+		}
+		gb := seqio.GenBank{
+			Fields: seqio.GenBankFields{LocusName: "X", Molecule: c01Molecules[0], Topology: gts.Linear, Division: "UNA",
+				Date: seqio.FromTime(time.Date(2000, 1, 1, 0, 0, 0, 0, time.UTC))},
+			Table: tab, Origin: seqio.NewOrigin([]byte("acgtacgtacgt"))}
+		checkSequence(r, "k3-witness-before-delete", gb)
+		checkSequence(r, "k3-witness-after-delete", gts.Delete(gb, 3, 3))
+	}
 
 	// --- multi-record streams -------------------------------------------------------
 	for i := 0; i < nStream; i++ {
